@@ -26,6 +26,7 @@ CDEP = {
     "dft_kernel": "ciderpress.models.dft_kernel",
     "train": "ciderpress.models.train",
     "map_tools": "ciderpress.models.kernel_plans.map_tools",
+    "lcao_convolutions": "ciderpress.dft.lcao_convolutions",
     "grids_indexer": "ciderpress.dft.grids_indexer",
     "gen_cider_grid": "ciderpress.pyscf.gen_cider_grid",
 }
